@@ -6,6 +6,7 @@ package main
 // each one; the parent (checklib/c18.py) observes worker deaths and application shutdowns.
 
 import (
+	"github.com/Oneledger/protocol/data/governance"
 	"encoding/hex"
 	"encoding/json"
 	"flag"
@@ -326,6 +327,8 @@ func c18History(name string) int {
 		var seed int64
 		fmt.Sscanf(name[len("random:"):], "%d", &seed)
 		h = genHistory(rand.New(rand.NewSource(seed)), w, 30, 6)
+	} else if strings.HasPrefix(name, "cfg:") {
+		h = cfgHistory(w, name[len("cfg:"):])
 	} else {
 		h = scenarioHistory(name, w)
 		gen = scenarioGenesis(name)
@@ -347,6 +350,49 @@ func c18History(name string) int {
 	}
 	say("HDONE %s\n", name)
 	return 0
+}
+
+// cfgHistory: a configuration-update proposal "key:value" taken as far as the application lets it go — created,
+// funded, voted by every validator, finalised by the block hooks — followed by ordinary transactions of the
+// subsystems the options govern.  A hostile value that the validation lets through must not stop the node later
+// (a price of zero that a handler divides by, a count that sizes a slice, a deadline in the past).
+func cfgHistory(w *World, update string) *History {
+	s := &scBuilder{h: &History{Name: "cfg:" + update}}
+	GAS = 1000000
+	u0, u1, u2, u3 := w.Users[0], w.Users[1], w.Users[2], w.Users[3]
+	price := oltAmt("1002000000000000000000")
+	s.empty(2)
+	s.block([][]byte{
+		txPropCreateCfg(u0, "c18cfg", update, oltAmt("1000000000"), 10, s.memo()),
+		txDomainCreate(u1, "c18a.ol", price, s.memo()), txDomainCreate(u1, "c18s.ol", price, s.memo()),
+	}, "prop create cfg", "domain create", "domain create")
+	s.block([][]byte{txPropFund(u1, "c18cfg", oltAmt("9000000000"), s.memo()),
+		txDomainSell(u1, "c18s.ol", oltAmt("5000000000000000000"), false, s.memo())}, "prop fund", "domain sell")
+	txs := [][]byte{}
+	for _, v := range w.Vals {
+		txs = append(txs, txPropVote(v, "c18cfg", governance.OPIN_POSITIVE, s.memo()))
+	}
+	s.block(txs, "prop vote")
+	s.empty(3)
+	for round := 0; round < 2; round++ {
+		s.block([][]byte{
+			txDomainCreate(u2, fmt.Sprintf("c18b%d.ol", round), price, s.memo()),
+			txDomainRenew(u1, "c18a.ol", oltAmt("100000000000000000"), s.memo()),
+			txDomainPurchase(u2, "c18s.ol", oltAmt("5000000000000000000"), s.memo()),
+			txDomainCreate(u1, fmt.Sprintf("x%d.c18a.ol", round), price, s.memo()),
+			txSend(u0, u1.Addr, oltAmt("1000000000000"), s.memo()),
+			txPropCreate(u3, fmt.Sprintf("c18after%d", round), governance.ProposalTypeGeneral, oltAmt("1000000000"), 40, 0, s.memo()),
+			txPropCreateCfg(u3, fmt.Sprintf("c18aftercfg%d", round), "feeOption.minFeeDecimal:9", oltAmt("1000000000"), 40, s.memo()),
+			txStake(w.Extra[0], oltAmt("2000000"), s.memo()),
+			txUnstake(w.Vals[1], oltAmt("1000"), s.memo()),
+			txDelegate(u0, oltAmt("250000000000000000"), s.memo()),
+			txUndelegate(u0, oltAmt("1000000000"), s.memo()),
+			txAllegation(w.Vals[0], fmt.Sprintf("c18al%d", round), w.Vals[2].Val.Addr, 6, s.memo()),
+			txBidCreate(u3, u1.Addr, "c18a.ol", bidOns, oltAmt("3000000000000000000"), bidFar, s.memo()),
+		}, "domain create", "domain renew", "domain purchase", "domain create sub", "send", "prop create", "prop create cfg", "stake", "unstake", "delegate", "undelegate", "allegation", "bidcreate")
+		s.empty(2)
+	}
+	return s.h
 }
 
 func c18Main(args []string) int {
